@@ -271,6 +271,7 @@ func (u *Unit) lockOp(fr *Frame, st *State, pv Val, mode int64, where string) {
 		}
 		env := u.newEnv(fr, st, u.entry)
 		env.this = this
+		env.callee = true
 		u.assume(st.pc, u.evalBool(env, li.Clause.Expr))
 	}
 	u.covers = append(u.covers, coverPoint{"lockinv@" + u.curKey() + ":" + lk, st.pc, len(u.lines)})
@@ -347,6 +348,8 @@ func (u *Unit) unlockOp(fr *Frame, st *State, pv Val, mode int64, where string) 
 			}
 			env := u.newEnv(fr, st, u.entry)
 			env.this = this
+			env.callee = true
+		env.callee = true
 			g := u.evalBool(env, li.Clause.Expr)
 			u.oblige("lockinv("+lk+")."+li.Clause.Label, propList(li.Clause.Prop), "", st.pc, g, where, li.Clause.Src)
 		}
@@ -402,6 +405,8 @@ func (u *Unit) atomicLoad(fr *Frame, st *State, pv Val, rt types.Type, where str
 				env := u.newEnv(fr, st, u.entry)
 				env.vars["v"] = &Scalar{T: val, Typ: rt}
 				env.this = &Scalar{T: p.Base, Typ: types.NewPointer(p.RTyp)}
+			env.callee = true
+				env.callee = true
 				u.assume(st.pc, u.evalBool(env, fd.Inv.Expr))
 			}
 		}
@@ -469,6 +474,7 @@ func (u *Unit) atomicStore(fr *Frame, st *State, pv Val, v Val, where string) {
 			env := u.newEnv(fr, st, u.entry)
 			env.vars["v"] = &Scalar{T: t, Typ: stored.(*Scalar).Typ}
 			env.this = &Scalar{T: p.Base, Typ: types.NewPointer(p.RTyp)}
+			env.callee = true
 			props := propsOfField(fd)
 			if len(props) == 0 {
 				props = propList(fd.Inv.Prop)
@@ -479,6 +485,7 @@ func (u *Unit) atomicStore(fr *Frame, st *State, pv Val, v Val, where string) {
 			env := u.newEnv(fr, st, u.entry)
 			env.vars["v"] = &Scalar{T: t, Typ: stored.(*Scalar).Typ}
 			env.this = &Scalar{T: p.Base, Typ: types.NewPointer(p.RTyp)}
+			env.callee = true
 			props := propList(fd.OnStore.Prop)
 			if len(props) == 0 {
 				props = propsOfField(fd)
